@@ -389,7 +389,8 @@ class XCubeMatchingDecoder(BaseDecoder):
                 toric_loop = get_toric_loop(
                     xcube_matching_ortho, component, proj_axis_int
                 )
-                correction_coordinates = decode_plane(toric_loop, (Lx, Ly))
+                plane_size = tuple_remove((Lx, Ly, Lz), proj_axis_int)
+                correction_coordinates = decode_plane(toric_loop, plane_size)
 
                 plane_proj = component[0]
 
